@@ -4,6 +4,46 @@
 package css
 
 // lexInv: the lexer owns a well-formed Input whose cursor has not passed the terminator.
+// ---- C07: character classes and closed forms of the token grammar (buffers are NUL-terminated: no length tests needed)
+//@ pred cDig(c) := '0' <= c && c <= '9'
+//@ pred cHex(c) := ('0' <= c && c <= '9') || ('a' <= c && c <= 'f') || ('A' <= c && c <= 'F')
+//@ pred cWS(c) := c == ' ' || c == '\t' || c == '\n' || c == '\r' || c == '\f'
+//@ pred cNL(c) := c == '\n' || c == '\r' || c == '\f'
+// number: (+|-)? ( digits ('.' digits)? | '.' digits ) ( (e|E) (+|-)? digits )?  starting at p; cssNumEnd == p when there is none
+//@ pred cS(b, p) := p + ite(b[p] == '+' || b[p] == '-', 1, 0)
+//@ pred cD1(b, p) := digitEnd(b, cS(b, p))
+//@ pred cHasInt(b, p) := cD1(b, p) > cS(b, p)
+//@ pred cHasFrac(b, p) := b[cD1(b, p)] == '.' && cDig(b[cD1(b, p)+1])
+//@ pred cM(b, p) := ite(cHasFrac(b, p), digitEnd(b, cD1(b, p)+1), ite(cHasInt(b, p), cD1(b, p), p))
+//@ pred cT(b, p) := cM(b, p) + 1 + ite(b[cM(b, p)+1] == '+' || b[cM(b, p)+1] == '-', 1, 0)
+//@ pred cHasExp(b, p) := (b[cM(b, p)] == 'e' || b[cM(b, p)] == 'E') && cDig(b[cT(b, p)])
+//@ pred cssNumEnd(b, p) := ite(cM(b, p) == p, p, ite(cHasExp(b, p), digitEnd(b, cT(b, p)), cM(b, p)))
+//@ pred escHexEnd(b, p) := min(hexEnd(b, p+1), p+7)
+// escape starting at p (closed form of consumeEscape): present iff backslash not followed by a newline or the end of input
+//@ pred isEsc(b, p) := b[p] == '\\' && !cNL(b[p+1]) && p+1 < len(b)-1
+//@ pred escEndC(b, p) := ite(cHex(b[p+1]), escHexEnd(b, p) + ite(cWS(b[escHexEnd(b, p)]), 1, 0), p + 1 + ite(b[p+1] >= 0xC0, runeLen(b[p+1], len(b)-2-p), 1))
+// the end of a malformed url(: the first ')' reached from p stepping over escapes as units, or the end of input
+//@ orbit badURLEnd(s, p) stop s[p] == ')' || p >= len(s)-1 next ite(isEsc(s, p), escEndC(s, p), p+1)
+// string body scanning from p for delimiter d: stops at the delimiter, at a raw newline, or at the end of input; a backslash
+// takes its escape (or, before a newline, the newline; at the end of input, nothing) with it
+//@ pred nlLen(b, q) := ite(b[q] == '\n' || b[q] == '\f', 1, ite(b[q] == '\r', ite(b[q+1] == '\n', 2, 1), 0))
+//@ pred strNext(b, p) := ite(b[p] == '\\', ite(isEsc(b, p), escEndC(b, p), p + 1 + nlLen(b, p+1)), p+1)
+//@ orbit strEndD(s, p) stop s[p] == '"' || cNL(s[p]) || p >= len(s)-1 next strNext(s, p)
+//@ orbit strEndS(s, p) stop s[p] == '\'' || cNL(s[p]) || p >= len(s)-1 next strNext(s, p)
+//@ pred strEnd(b, p, d) := ite(d == '"', strEndD(b, p), strEndS(b, p))
+// fixed spellings
+//@ pred bracketByte(tt) := ite(tt == LeftParenthesisToken, '(', ite(tt == RightParenthesisToken, ')', ite(tt == LeftBracketToken, '[', ite(tt == RightBracketToken, ']', ite(tt == LeftBraceToken, '{', '}')))))
+//@ pred isBracketTok(tt) := tt == LeftParenthesisToken || tt == RightParenthesisToken || tt == LeftBracketToken || tt == RightBracketToken || tt == LeftBraceToken || tt == RightBraceToken
+//@ pred matchByte(tt) := ite(tt == IncludeMatchToken, '~', ite(tt == DashMatchToken, '|', ite(tt == PrefixMatchToken, '^', ite(tt == SuffixMatchToken, '$', '*'))))
+//@ pred isMatchTok(tt) := tt == IncludeMatchToken || tt == DashMatchToken || tt == PrefixMatchToken || tt == SuffixMatchToken || tt == SubstringMatchToken
+// identifiers: name-start is a letter, '_' or non-ASCII; name characters add digits and '-'; escapes count as one unit
+//@ pred cNameStart(c) := ('a' <= c && c <= 'z') || ('A' <= c && c <= 'Z') || c == '_' || c >= 0x80
+//@ pred cName(c) := cNameStart(c) || cDig(c) || c == '-'
+//@ orbit nameEnd(s, p) stop !(cName(s[p]) || isEsc(s, p)) || p >= len(s)-1 next ite(cName(s[p]), p+1, escEndC(s, p))
+// where the name characters start for an identifier at p (0 if there is no identifier): "--" custom property, or an
+// optional '-' followed by a name-start character or an escape
+//@ pred identBody(b, p) := ite(b[p] == '-' && b[p+1] == '-', p+2, ite(cNameStart(b[cS1(b, p)]), cS1(b, p)+1, ite(isEsc(b, cS1(b, p)), escEndC(b, cS1(b, p)), 0)))
+//@ pred cS1(b, p) := p + ite(b[p] == '-', 1, 0)
 //@ pred lexInv(l) := l != nil && l.r != nil && inputInv(l.r)
 // lexStep: a scanner only moves forward (two-state; trivially true at entry).
 //@ pred lexStep(l) := lexInv(l) && l.r.pos >= old(l.r.pos)
@@ -14,7 +54,7 @@ package css
 //@   preserves[S] lexStep(l)
 //@   requires[S] c != 0
 //@   ensures[S]  result ==> l.r.pos == old(l.r.pos)+1 && old(l.r.buf[l.r.pos]) == c
-//@   ensures[S]  !result ==> l.r.pos == old(l.r.pos)
+//@   ensures[S]  !result ==> l.r.pos == old(l.r.pos) && l.r.buf[l.r.pos] != c
 
 //@ func Lexer.consumeComment
 //@   preserves[S] lexStep(l)
@@ -23,26 +63,37 @@ package css
 //@   loop 1 decreases len(l.r.buf) - l.r.pos
 
 //@ func Lexer.consumeNewline
+//@   ensures[F,C07] @nl: result <==> cNL(old(l.r.buf[l.r.pos]))
+//@   ensures[F,C07] @nl-len: l.r.pos == old(l.r.pos) + nlLen(l.r.buf, old(l.r.pos))
 //@   preserves[S] lexStep(l)
 //@   ensures[S]  !result ==> l.r.pos == old(l.r.pos)
 //@   ensures[S]  result ==> l.r.pos > old(l.r.pos)
 
 //@ func Lexer.consumeWhitespace
+//@   ensures[F,C07] @ws: result <==> cWS(old(l.r.buf[l.r.pos]))
 //@   preserves[S] lexStep(l)
 //@   ensures[S]  !result ==> l.r.pos == old(l.r.pos)
 //@   ensures[S]  result ==> l.r.pos == old(l.r.pos)+1
 
 //@ func Lexer.consumeDigit
+//@   ensures[F,C07] @digit: result <==> cDig(old(l.r.buf[l.r.pos]))
 //@   preserves[S] lexStep(l)
 //@   ensures[S]  !result ==> l.r.pos == old(l.r.pos)
 //@   ensures[S]  result ==> l.r.pos == old(l.r.pos)+1
 
 //@ func Lexer.consumeHexDigit
+//@   ensures[F,C07] @hex: result <==> cHex(old(l.r.buf[l.r.pos]))
 //@   preserves[S] lexStep(l)
 //@   ensures[S]  !result ==> l.r.pos == old(l.r.pos)
 //@   ensures[S]  result ==> l.r.pos == old(l.r.pos)+1
 
 //@ func Lexer.consumeEscape
+// escape: backslash, then 1-6 hex digits and one optional whitespace, or any one character that is not a newline
+//@   ensures[F,C07] @escape-iff: result <==> isEsc(l.r.buf, old(l.r.pos))
+//@   ensures[F,C07] @escape-end: result ==> l.r.pos == escEndC(l.r.buf, old(l.r.pos))
+//@   ensures[F,C07] @escape-hex: result && cHex(old(l.r.buf[l.r.pos+1])) ==> l.r.pos == escHexEnd(l.r.buf, old(l.r.pos)) + ite(cWS(l.r.buf[escHexEnd(l.r.buf, old(l.r.pos))]), 1, 0)
+//@   ensures[F,C07] @escape-char: result && !cHex(old(l.r.buf[l.r.pos+1])) ==> l.r.pos == old(l.r.pos) + 1 + ite(old(l.r.buf[l.r.pos+1]) >= 0xC0, runeLen(old(l.r.buf[l.r.pos+1]), len(l.r.buf) - 2 - old(l.r.pos)), 1)
+//@   loop 1 invariant[F] 1 <= k && k <= 6 && l.r.pos == old(l.r.pos) + 1 + k && forall(j, old(l.r.pos)+1, l.r.pos, cHex(l.r.buf[j]))
 //@   preserves[S] lexStep(l)
 //@   ensures[S]  !result ==> l.r.pos == old(l.r.pos)
 //@   ensures[S]  result ==> l.r.pos > old(l.r.pos)
@@ -50,6 +101,9 @@ package css
 //@   loop 1 decreases 6 - k
 
 //@ func Lexer.consumeIdentToken
+//@   ensures[F,C07] @ident-iff: result <==> identBody(l.r.buf, old(l.r.pos)) != 0
+//@   ensures[F,C07] @ident-end: result ==> l.r.pos == nameEnd(l.r.buf, identBody(l.r.buf, old(l.r.pos)))
+//@   loop 1 invariant[F] identBody(l.r.buf, old(l.r.pos)) != 0 && nameEnd(l.r.buf, l.r.pos) == nameEnd(l.r.buf, identBody(l.r.buf, old(l.r.pos)))
 //@   preserves[S] lexStep(l)
 //@   ensures[S]  !result ==> l.r.pos == old(l.r.pos)
 //@   ensures[S]  result ==> l.r.pos > old(l.r.pos)
@@ -69,6 +123,9 @@ package css
 //@   ensures[S]  result ==> l.r.pos >= old(l.r.pos) + 2
 
 //@ func Lexer.consumeHashToken
+//@   ensures[F,C07] @hash-iff: result <==> (cName(old(l.r.buf[l.r.pos+1])) || isEsc(l.r.buf, old(l.r.pos)+1))
+//@   ensures[F,C07] @hash-end: result ==> l.r.pos == nameEnd(l.r.buf, old(l.r.pos)+1)
+//@   loop 1 invariant[F] nameEnd(l.r.buf, l.r.pos) == nameEnd(l.r.buf, old(l.r.pos)+1)
 //@   preserves[S] lexStep(l)
 //@   requires[S] l.r.buf[l.r.pos] != 0
 //@   ensures[S]  !result ==> l.r.pos == old(l.r.pos)
@@ -77,6 +134,10 @@ package css
 //@   loop 1 decreases len(l.r.buf) - l.r.pos
 
 //@ func Lexer.consumeNumberToken
+//@   ensures[F,C07] @number: l.r.pos == cssNumEnd(l.r.buf, old(l.r.pos)) && (result <==> l.r.pos > old(l.r.pos))
+//@   loop 1 invariant[F] firstDigit && cS(l.r.buf, old(l.r.pos)) < l.r.pos && forall(k, cS(l.r.buf, old(l.r.pos)), l.r.pos, cDig(l.r.buf[k]))
+//@   loop 2 invariant[F] cD1(l.r.buf, old(l.r.pos)) + 1 < l.r.pos && l.r.buf[cD1(l.r.buf, old(l.r.pos))] == '.' && forall(k, cD1(l.r.buf, old(l.r.pos))+1, l.r.pos, cDig(l.r.buf[k])) && (firstDigit <==> cHasInt(l.r.buf, old(l.r.pos)))
+//@   loop 3 invariant[F] cM(l.r.buf, old(l.r.pos)) > old(l.r.pos) && (l.r.buf[cM(l.r.buf, old(l.r.pos))] == 'e' || l.r.buf[cM(l.r.buf, old(l.r.pos))] == 'E') && cT(l.r.buf, old(l.r.pos)) < l.r.pos && cDig(l.r.buf[cT(l.r.buf, old(l.r.pos))]) && forall(k, cT(l.r.buf, old(l.r.pos)), l.r.pos, cDig(l.r.buf[k]))
 //@   preserves[S] lexStep(l)
 //@   ensures[S]  !result ==> l.r.pos == old(l.r.pos)
 //@   ensures[S]  result ==> l.r.pos > old(l.r.pos)
@@ -84,6 +145,15 @@ package css
 //@   loop * decreases len(l.r.buf) - l.r.pos
 
 //@ func Lexer.consumeUnicodeRangeToken
+// U+ then 1-6 hex digits, optionally '-' and 1-6 more, or hex digits padded with '?' to at most 6 characters
+//@   ensures[F,C07] @urange-prefix: result ==> (old(l.r.buf[l.r.pos]) == 'u' || old(l.r.buf[l.r.pos]) == 'U') && old(l.r.buf[l.r.pos+1]) == '+'
+//@   ensures[F,C07] @urange-hex: result && l.r.buf[hexEnd(l.r.buf, old(l.r.pos)+2)] != '-' && l.r.buf[hexEnd(l.r.buf, old(l.r.pos)+2)] != '?' ==> l.r.pos == hexEnd(l.r.buf, old(l.r.pos)+2) && 1 <= l.r.pos - old(l.r.pos) - 2 && l.r.pos - old(l.r.pos) - 2 <= 6
+//@   ensures[F,C07] @urange-range: result && l.r.buf[hexEnd(l.r.buf, old(l.r.pos)+2)] == '-' ==> 1 <= hexEnd(l.r.buf, old(l.r.pos)+2) - old(l.r.pos) - 2 && hexEnd(l.r.buf, old(l.r.pos)+2) - old(l.r.pos) - 2 <= 6 &&
+//@        l.r.pos == hexEnd(l.r.buf, hexEnd(l.r.buf, old(l.r.pos)+2)+1) && 1 <= l.r.pos - hexEnd(l.r.buf, old(l.r.pos)+2) - 1 && l.r.pos - hexEnd(l.r.buf, old(l.r.pos)+2) - 1 <= 6
+//@   ensures[F,C07] @urange-wild: result && l.r.buf[hexEnd(l.r.buf, old(l.r.pos)+2)] == '?' ==> hexEnd(l.r.buf, old(l.r.pos)+2) < l.r.pos && l.r.pos - old(l.r.pos) - 2 <= 6 && forall(q, hexEnd(l.r.buf, old(l.r.pos)+2), l.r.pos, l.r.buf[q] == '?') && l.r.buf[l.r.pos] != '?'
+//@   loop 1 invariant[F] k == l.r.pos - old(l.r.pos) - 2 && forall(q, old(l.r.pos)+2, l.r.pos, cHex(l.r.buf[q]))
+//@   loop 2 invariant[F] k == l.r.pos - hexEnd(l.r.buf, old(l.r.pos)+2) - 1 && k >= 1 && l.r.buf[hexEnd(l.r.buf, old(l.r.pos)+2)] == '-' && forall(q, hexEnd(l.r.buf, old(l.r.pos)+2)+1, l.r.pos, cHex(l.r.buf[q])) && 1 <= hexEnd(l.r.buf, old(l.r.pos)+2) - old(l.r.pos) - 2 && hexEnd(l.r.buf, old(l.r.pos)+2) - old(l.r.pos) - 2 <= 6
+//@   loop 3 invariant[F] k == l.r.pos - old(l.r.pos) - 2 && hexEnd(l.r.buf, old(l.r.pos)+2) < l.r.pos && l.r.buf[hexEnd(l.r.buf, old(l.r.pos)+2)] == '?' && forall(q, hexEnd(l.r.buf, old(l.r.pos)+2), l.r.pos, l.r.buf[q] == '?')
 //@   preserves[S] lexStep(l)
 //@   ensures[S]  !result ==> l.r.pos == old(l.r.pos)
 //@   ensures[S]  result ==> l.r.pos > old(l.r.pos)
@@ -91,21 +161,29 @@ package css
 //@   loop * decreases len(l.r.buf) - l.r.pos
 
 //@ func Lexer.consumeColumnToken
+//@   ensures[F,C07] @column: result <==> old(l.r.buf[l.r.pos]) == '|' && old(l.r.buf[l.r.pos+1]) == '|'
+//@   ensures[F,C07] @column-len: result ==> l.r.pos == old(l.r.pos) + 2
 //@   preserves[S] lexStep(l)
 //@   ensures[S]  !result ==> l.r.pos == old(l.r.pos)
 //@   ensures[S]  result ==> l.r.pos == old(l.r.pos)+2
 
 //@ func Lexer.consumeCDOToken
+//@   ensures[F,C07] @cdo: result <==> old(l.r.buf[l.r.pos]) == '<' && old(l.r.buf[l.r.pos+1]) == '!' && old(l.r.buf[l.r.pos+2]) == '-' && old(l.r.buf[l.r.pos+3]) == '-'
+//@   ensures[F,C07] @cdo-len: result ==> l.r.pos == old(l.r.pos) + 4
 //@   preserves[S] lexStep(l)
 //@   ensures[S]  !result ==> l.r.pos == old(l.r.pos)
 //@   ensures[S]  result ==> l.r.pos == old(l.r.pos)+4
 
 //@ func Lexer.consumeCDCToken
+//@   ensures[F,C07] @cdc: result <==> old(l.r.buf[l.r.pos]) == '-' && old(l.r.buf[l.r.pos+1]) == '-' && old(l.r.buf[l.r.pos+2]) == '>'
+//@   ensures[F,C07] @cdc-len: result ==> l.r.pos == old(l.r.pos) + 3
 //@   preserves[S] lexStep(l)
 //@   ensures[S]  !result ==> l.r.pos == old(l.r.pos)
 //@   ensures[S]  result ==> l.r.pos == old(l.r.pos)+3
 
 //@ func Lexer.consumeMatch
+//@   ensures[F,C07] @match: ite(isMatchTok(result), l.r.pos == old(l.r.pos) + 2 && old(l.r.buf[l.r.pos]) == matchByte(result) && old(l.r.buf[l.r.pos+1]) == '=', result == ErrorToken && l.r.pos == old(l.r.pos))
+//@   ensures[F,C07] @match-iff: isMatchTok(result) <==> old(l.r.buf[l.r.pos+1]) == '=' && (old(l.r.buf[l.r.pos]) == '~' || old(l.r.buf[l.r.pos]) == '|' || old(l.r.buf[l.r.pos]) == '^' || old(l.r.buf[l.r.pos]) == '$' || old(l.r.buf[l.r.pos]) == '*')
 //@   ensures[S]  @kind: result == ErrorToken || result == IncludeMatchToken || result == DashMatchToken || result == PrefixMatchToken || result == SuffixMatchToken || result == SubstringMatchToken
 //@   preserves[S] lexStep(l)
 //@   requires[S] l.r.buf[l.r.pos] != 0
@@ -113,18 +191,27 @@ package css
 //@   ensures[S]  result != ErrorToken ==> l.r.pos == old(l.r.pos)+2
 
 //@ func Lexer.consumeBracket
+//@   ensures[F,C07] @bracket: ite(isBracketTok(result), l.r.pos == old(l.r.pos) + 1 && old(l.r.buf[l.r.pos]) == bracketByte(result), result == ErrorToken && l.r.pos == old(l.r.pos))
 //@   ensures[S]  @kind: result == ErrorToken || result == LeftParenthesisToken || result == RightParenthesisToken || result == LeftBracketToken || result == RightBracketToken || result == LeftBraceToken || result == RightBraceToken
 //@   preserves[S] lexStep(l)
 //@   ensures[S]  result == ErrorToken ==> l.r.pos == old(l.r.pos)
 //@   ensures[S]  result != ErrorToken ==> l.r.pos == old(l.r.pos)+1
 
 //@ func Lexer.consumeNumeric
+//@   ensures[F,C07] @numeric: ite(cssNumEnd(l.r.buf, old(l.r.pos)) == old(l.r.pos), result == ErrorToken && l.r.pos == old(l.r.pos),
+//@        ite(l.r.buf[cssNumEnd(l.r.buf, old(l.r.pos))] == '%', result == PercentageToken && l.r.pos == cssNumEnd(l.r.buf, old(l.r.pos)) + 1,
+//@        ite(l.r.pos > cssNumEnd(l.r.buf, old(l.r.pos)), result == DimensionToken, result == NumberToken && l.r.pos == cssNumEnd(l.r.buf, old(l.r.pos)))))
 //@   ensures[S]  @kind: result == ErrorToken || result == PercentageToken || result == DimensionToken || result == NumberToken
 //@   preserves[S] lexStep(l)
 //@   ensures[S]  result == ErrorToken ==> l.r.pos == old(l.r.pos)
 //@   ensures[S]  result != ErrorToken ==> l.r.pos > old(l.r.pos)
 
 //@ func Lexer.consumeString
+//@   requires[F] l.r.buf[l.r.pos] == '"' || l.r.buf[l.r.pos] == '\''
+// the string ends at the first unescaped matching quote (StringToken), at the first raw newline (BadStringToken) or at the end of input
+//@   ensures[F,C07] @string-end: l.r.pos == strEnd(l.r.buf, old(l.r.pos)+1, old(l.r.buf[l.r.pos])) + ite(l.r.buf[strEnd(l.r.buf, old(l.r.pos)+1, old(l.r.buf[l.r.pos]))] == old(l.r.buf[l.r.pos]) || cNL(l.r.buf[strEnd(l.r.buf, old(l.r.pos)+1, old(l.r.buf[l.r.pos]))]), 1, 0)
+//@   ensures[F,C07] @bad-string: result == BadStringToken <==> cNL(l.r.buf[strEnd(l.r.buf, old(l.r.pos)+1, old(l.r.buf[l.r.pos]))])
+//@   loop 1 invariant[F] delim == old(l.r.buf[l.r.pos]) && strEnd(l.r.buf, l.r.pos, delim) == strEnd(l.r.buf, old(l.r.pos)+1, delim)
 //@   ensures[S]  @kind: result == BadStringToken || result == StringToken
 //@   preserves[S] lexStep(l)
 //@   requires[S] l.r.buf[l.r.pos] != 0
@@ -136,10 +223,17 @@ package css
 //@   loop 1 decreases len(l.r.buf) - l.r.pos
 
 //@ func Lexer.consumeRemnantsBadURL
+//@   ensures[F,C07] @to-paren: l.r.pos == badURLEnd(l.r.buf, old(l.r.pos)) + ite(l.r.buf[badURLEnd(l.r.buf, old(l.r.pos))] == ')', 1, 0)
+//@   loop 1 invariant[F] badURLEnd(l.r.buf, l.r.pos) == badURLEnd(l.r.buf, old(l.r.pos))
 //@   preserves[S] lexStep(l)
 //@   loop 1 decreases len(l.r.buf) - l.r.pos
 
 //@ func Lexer.consumeIdentlike
+//@   ensures[F,C07] @function: result == FunctionToken ==> l.r.buf[l.r.pos-1] == '('
+//@   ensures[F,C07] @url-close: result == URLToken ==> l.r.buf[l.r.pos-1] == ')' || l.r.pos >= len(l.r.buf)-1
+//@   ensures[F,C07] @badurl-close: result == BadURLToken ==> l.r.buf[l.r.pos-1] == ')' || l.r.pos >= len(l.r.buf)-1
+//@   ensures[F,C07] @ident: result == IdentToken ==> l.r.buf[l.r.pos] != '('
+//@   loop * candidate[F] l.r.pos > old(l.r.pos)
 //@   ensures[S]  @kind: result == ErrorToken || result == IdentToken || result == FunctionToken || result == BadURLToken || result == URLToken
 //@   preserves[S] lexStep(l)
 //@   ensures[S]  result == ErrorToken ==> l.r.pos == old(l.r.pos)
@@ -160,6 +254,25 @@ package css
 //@   ensures[T,C02]  @shifted: l.r.start == l.r.pos
 //@   loop 1 invariant l.r.pos > old(l.r.pos) && l.r.start == old(l.r.start)
 //@   loop 1 decreases len(l.r.buf) - l.r.pos
+// ---- C07: spellings and extents of the tokens Next returns (B = position before the call)
+//@   ensures[F,C07] @ws-token: result0 == WhitespaceToken ==> forall(k, 0, len(result1), cWS(result1[k])) && !cWS(l.r.buf[l.r.pos])
+//@   ensures[F,C07] @colon: result0 == ColonToken ==> len(result1) == 1 && result1[0] == ':'
+//@   ensures[F,C07] @semicolon: result0 == SemicolonToken ==> len(result1) == 1 && result1[0] == ';'
+//@   ensures[F,C07] @comma: result0 == CommaToken ==> len(result1) == 1 && result1[0] == ','
+//@   ensures[F,C07] @bracket: isBracketTok(result0) ==> len(result1) == 1 && result1[0] == bracketByte(result0)
+//@   ensures[F,C07] @match: isMatchTok(result0) ==> len(result1) == 2 && result1[0] == matchByte(result0) && result1[1] == '='
+//@   ensures[F,C07] @column: result0 == ColumnToken ==> len(result1) == 2 && result1[0] == '|' && result1[1] == '|'
+//@   ensures[F,C07] @cdo: result0 == CDOToken ==> len(result1) == 4 && result1[0] == '<' && result1[1] == '!' && result1[2] == '-' && result1[3] == '-'
+//@   ensures[F,C07] @cdc: result0 == CDCToken ==> len(result1) == 3 && result1[0] == '-' && result1[1] == '-' && result1[2] == '>'
+//@   ensures[F,C07] @delim: result0 == DelimToken ==> len(result1) == 1
+//@   ensures[F,C07] @string: result0 == StringToken || result0 == BadStringToken ==> (old(l.r.buf[l.r.pos]) == '"' || old(l.r.buf[l.r.pos]) == '\'') &&
+//@        l.r.pos == strEnd(l.r.buf, old(l.r.pos)+1, old(l.r.buf[l.r.pos])) + ite(l.r.buf[strEnd(l.r.buf, old(l.r.pos)+1, old(l.r.buf[l.r.pos]))] == old(l.r.buf[l.r.pos]) || cNL(l.r.buf[strEnd(l.r.buf, old(l.r.pos)+1, old(l.r.buf[l.r.pos]))]), 1, 0) &&
+//@        (result0 == BadStringToken <==> cNL(l.r.buf[strEnd(l.r.buf, old(l.r.pos)+1, old(l.r.buf[l.r.pos]))]))
+//@   ensures[F,C07] @number: result0 == NumberToken ==> l.r.pos == cssNumEnd(l.r.buf, old(l.r.pos)) && l.r.pos > old(l.r.pos)
+//@   ensures[F,C07] @percentage: result0 == PercentageToken ==> l.r.pos == cssNumEnd(l.r.buf, old(l.r.pos)) + 1 && l.r.buf[l.r.pos-1] == '%' && l.r.pos > old(l.r.pos) + 1
+//@   ensures[F,C07] @dimension: result0 == DimensionToken ==> l.r.pos > cssNumEnd(l.r.buf, old(l.r.pos)) && cssNumEnd(l.r.buf, old(l.r.pos)) > old(l.r.pos)
+//@   ensures[F,C07] @numeric-first: cssNumEnd(l.r.buf, old(l.r.pos)) > old(l.r.pos) && old(l.r.buf[l.r.pos]) != '-' ==> result0 == NumberToken || result0 == PercentageToken || result0 == DimensionToken
+//@   loop * candidate[F] forall(k, old(l.r.pos), l.r.pos, cWS(l.r.buf[k]))
 
 //@ func Lexer.Err
 //@   requires[S] lexInv(l)
